@@ -157,6 +157,28 @@ def r2(ctx):
         okr = isinstance(rng, Struct) and rng.get("start") == 0 and any(isinstance(x, tuple) and x[0] == "call" and x[1].endswith("::len") for x in atoms(rng.get("end")))
         rep.check(okr, "sweep:index-range", "victim index in 0..store.len()", "victim index drawn from %s" % short(rng, 80), b.loc())
         # subtraction of each removed record
+        # the predicate handed to remove_if accepts exactly the entry whose visit index is the drawn number: visit counter
+        # starts at 0, the entry is accepted iff counter == drawn index, and every visit advances the counter by one
+        G = g.result
+        cbs = [e for e in p.events if e.kind == "callback-return" and e.name.endswith("::remove_if")]
+        if cbs:
+            v = cbs[0].args[0]
+            okp = None
+            k0 = None
+            tv = tform(v)
+            if isinstance(tv, tuple) and tv and tv[0] == "cmp" and tv[1] == "Eq" and G in (tv[2], tv[3]):
+                k0 = tv[3] if tv[2] == G else tv[2]
+                okp = k0 == 0
+            elif isinstance(v, int):
+                for c, truth, _s, _at in p.state.pc:
+                    if isinstance(c, tuple) and c and c[0] == "cmp" and c[1] in ("Eq", "Ne") and G in (c[2], c[3]):
+                        k0 = c[3] if c[2] == G else c[2]
+                        eq_holds = truth if c[1] == "Eq" else (not truth)
+                        okp = (k0 == 0) and (v == (1 if eq_holds else 0))
+            clo = cbs[0].extra.get("closure")
+            after = [cv.caps[0] for key_, cv in p.state.mem.items() if isinstance(cv, ClosureV) and cv.path == clo and len(cv.caps) >= 2 and G in atoms(cv.caps[1]) and isinstance(key_, tuple) and key_[0] == "L"]
+            adv = bool(after) and all(x == 1 for x in after)
+            rep.check(okp is True and adv, "sweep:predicate-picks-the-drawn-entry", "victim = the entry visited as number gen_range(0..len): counter from 0, +1 per visit, accepted iff equal", "the sweep's predicate does not pick exactly the drawn entry (first visit: counter %s, returns %s; counter after one visit %s): it evicts other / more / no entries than the one drawn — items go without memory pressure, or the loop never frees anything" % (short(k0, 20), short(v, 40), [short(x, 20) for x in after]), b.loc())
         # subtractions for the records the removal handed back (walked by match / flatten / if-let: any form)
         subs = [e for e in calls if e.name.endswith("fetch_sub") and (any(isinstance(x, tuple) and x and x[0] == "cbarg" for x in atoms(e.args[1])) or rm.result in atoms(e.args[1]))]
         n_removed_subs += len(subs)
